@@ -155,6 +155,7 @@ func (ctx *Context) reparseConsumedPrefix(first *parser) *parser {
 	offset := first.pt.offset
 	for i := 0; i < 3 && offset > 0; i++ {
 		p2 := ctx.newParserFor(full[:offset])
+		p2.cur.data.lookahead = full // custom dice parsers may peek behind their match: same text as the first time
 		if err := runParser(p2); err != nil {
 			return nil
 		}
